@@ -392,3 +392,27 @@ def r19(rr, repo):
         else:
             rr.ob('the repeated request reaches every source whose set is not complete', True, za.mod, c, witness=f'guards: {g}', key='request-not-withheld-from-half-set')
     rr.sites += len(loops)
+
+
+@rule('C06.R20', "a listener picks up a cleanly restarted publisher at once: the CLOSE of a source resets the expected id kept for that source, whatever the listener holds at that moment - an ephemeral "
+                 "request does not fast-forward the new instance, it counts from the start again, and a listener that kept the old expected id would discard every frame as 'older' until the old count is "
+                 "reached (the known finding about a publisher KILLED without CLOSE is exactly this state; the clean restart must not share it)")
+def r20(rr, repo):
+    za = anchors(repo)
+    once = za.R_once
+    # the CLOSE branch may be an `elif` of the special-message chain: collect every If whose test is `msg_id == MSG_ID_CLOSE`
+    branches = [n for n in ast.walk(once) if isinstance(n, ast.If) and isinstance(n.test, ast.Compare) and len(n.test.ops) == 1 and isinstance(n.test.ops[0], ast.Eq) and 'MSG_ID_CLOSE' in U(n.test)]
+    rr.floor('CLOSE branches of the receive loop', len(branches), 1, za.mod, once)
+    for br in branches:
+        resets = [s for st in br.body for s in ast.walk(st) if isinstance(s, ast.Assign) and any(U(t).endswith('.min_recv_id') for t in s.targets) and 'MSG_ID_INITIAL' in U(s.value)]
+        rr.ob('the CLOSE of a source resets the expected id kept for it', bool(resets), za.mod, resets[0] if resets else br, witness=U(resets[0])[:70] if resets else 'no reset in the CLOSE branch', key='close-resets-expected-id')
+        for s in resets:
+            g = [(t, p) for t, p in q.effective_guards(s, br) ]
+            cond = [(t, p) for t, p in g if '.got' in t or 'recvd' in t or 'partial' in t]
+            other = [(t, p) for t, p in g if (t, p) not in cond and not ('ephemeral' in t) and 'msg_id' not in t and 'MSG_ID_' not in t]      # which message it is, and whether the source is a listener's
+            if cond:
+                rr.ob('the reset does not depend on what the listener holds of the closing source (a half set or none)', False, za.mod, s, witness=f'only when {cond}', key='close-reset-unconditional')
+            elif other:
+                rr.unresolved('the reset of the expected id at CLOSE is conditional in a way this rule does not know', za.mod, s, witness=str(other)[:140], key='close-reset-unconditional')
+            else:
+                rr.ob('the reset does not depend on what the listener holds of the closing source (a half set or none)', True, za.mod, s, witness=f'guards inside the CLOSE branch: {g}', key='close-reset-unconditional')
